@@ -6,7 +6,13 @@ namespace IpcHub.Rtsp
 def genCfg : Cfg :=
   { gate := gateOfTable IpcHub.Gen.rtspGate,
     playAgainResponds := IpcHub.Gen.onPlayAgainResponds,
-    playingNeedsOk := IpcHub.Gen.onPlayPlayingNeedsOk }
+    playingNeedsOk := IpcHub.Gen.onPlayPlayingNeedsOk,
+    sidCarried := IpcHub.Gen.rtspNewResponseSets.contains ("FieldSession", "s.lsession") &&
+      IpcHub.Gen.respIdentityTouched.isEmpty }
+
+/-- wsp `newResponse` puts the session id on every response, nothing else touches it -/
+def genWspSid : Bool :=
+  IpcHub.Gen.wspNewResponseSets.contains ("FieldSession", "s.lsession") && IpcHub.Gen.respIdentityTouched.isEmpty
 
 /-- the gate of the WSP control channel of the current source tree -/
 def genWspGate : Status → Method → Bool := gateOfTable IpcHub.Gen.wspGate
